@@ -226,6 +226,10 @@ class CoercerMethod(DeserializationMethod):
     method: DeserializationMethod
 
     def deserialize(self, data: Any) -> Any:
+        # data of a discriminated union alternative has already been checked to be a
+        # dict by DiscriminatorMethod, which passes it wrapped in Discriminated
+        if isinstance(data, Discriminated):
+            return self.method.deserialize(data)
         return self.method.deserialize(self.coercer(self.cls, data))
 
 
